@@ -29,13 +29,13 @@ def fromIndices2M (i4 i3 i2 : Nat) : Nat :=
 def fromIndices4K (i4 i3 i2 i1 : Nat) : Nat :=
   containingAddress size4K (VirtAddr.newTruncate (i4 * 2^39 + i3 * 2^30 + i2 * 2^21 + i1 * 2^12))
 
-/-- `Page + u64`. -/
-def add (cfg : Cfg) (sz p rhs : Nat) : R Nat :=
-  (mulU64 cfg rhs sz).bind fun off => (VirtAddr.add cfg p off).map (containingAddress sz)
+/-- `Page + u64`: `containing_address(start + rhs.checked_mul(SIZE).unwrap())`. -/
+def add (sz p rhs : Nat) : R Nat :=
+  (R.ofOption (checkedMul rhs sz)).bind fun off => (VirtAddr.add p off).map (containingAddress sz)
 
 /-- `Page - u64`. -/
-def sub (cfg : Cfg) (sz p rhs : Nat) : R Nat :=
-  (mulU64 cfg rhs sz).bind fun off => (VirtAddr.sub p off).map (containingAddress sz)
+def sub (sz p rhs : Nat) : R Nat :=
+  (R.ofOption (checkedMul rhs sz)).bind fun off => (VirtAddr.sub p off).map (containingAddress sz)
 
 /-- `Page - Page`. -/
 def subPage (sz p q : Nat) : R Nat := (VirtAddr.subAddr p q).map (· / sz)
@@ -64,11 +64,11 @@ def fromStartAddress (sz a : Nat) : Option Nat :=
 
 def containingAddress (sz a : Nat) : Nat := a - a % sz
 
-def add (cfg : Cfg) (sz f rhs : Nat) : R Nat :=
-  (mulU64 cfg rhs sz).bind fun off => (PhysAddr.add cfg f off).map (containingAddress sz)
+def add (sz f rhs : Nat) : R Nat :=
+  (R.ofOption (checkedMul rhs sz)).bind fun off => (PhysAddr.add f off).map (containingAddress sz)
 
-def sub (cfg : Cfg) (sz f rhs : Nat) : R Nat :=
-  (mulU64 cfg rhs sz).bind fun off => (PhysAddr.sub f off).map (containingAddress sz)
+def sub (sz f rhs : Nat) : R Nat :=
+  (R.ofOption (checkedMul rhs sz)).bind fun off => (PhysAddr.sub f off).map (containingAddress sz)
 
 def subFrame (sz f g : Nat) : R Nat := (PhysAddr.subAddr f g).map (· / sz)
 
@@ -111,40 +111,45 @@ def len (cfg : Cfg) (k : RangeKind) (sz : Nat) (r : Range) : R Nat :=
 def size (cfg : Cfg) (k : RangeKind) (sz : Nat) (r : Range) : R Nat :=
   (len cfg k sz r).bind fun l => mulU64 cfg sz l
 
+/-- Largest frame start address of size `sz`: `PhysAddr::new_truncate(u64::MAX).align_down(SIZE)`. -/
+def maxFrame (sz : Nat) : Nat := (2^52 - 1) - (2^52 - 1) % sz
+
 /-- One `Iterator::next` call. -/
-def next (cfg : Cfg) (k : RangeKind) (sz : Nat) (r : Range) : R (Option Nat × Range) :=
+def next (k : RangeKind) (sz : Nat) (r : Range) : R (Option Nat × Range) :=
   match k with
   | .page =>
     if r.start < r.stop then
-      (Page.add cfg sz r.start 1).map fun s' => (some r.start, { r with start := s' })
+      (Page.add sz r.start 1).map fun s' => (some r.start, { r with start := s' })
     else .ok (none, r)
   | .frame =>
     if r.start < r.stop then
-      (PhysFrame.add cfg sz r.start 1).map fun s' => (some r.start, { r with start := s' })
+      (PhysFrame.add sz r.start 1).map fun s' => (some r.start, { r with start := s' })
     else .ok (none, r)
   | .pageIncl =>
     if r.start ≤ r.stop then
-      -- `max_page_addr = VirtAddr::new(u64::MAX) - (S::SIZE - 1)`
-      (VirtAddr.sub (2^64 - 1) (sz - 1)).bind fun maxPage =>
-        if r.start < maxPage then
-          (Page.add cfg sz r.start 1).map fun s' => (some r.start, { r with start := s' })
-        else
-          (Page.sub cfg sz r.stop 1).map fun e' => (some r.start, { r with stop := e' })
+      -- step `start` over the canonical sequence (jumping the gap); at the very last page
+      -- shrink `end` instead
+      match VirtAddr.forwardCheckedU64 r.start sz with
+      | some nxt => .ok (some r.start, { r with start := Page.containingAddress sz nxt })
+      | none => (Page.sub sz r.stop 1).map fun e' => (some r.start, { r with stop := e' })
     else .ok (none, r)
   | .frameIncl =>
     if r.start ≤ r.stop then
-      (PhysFrame.add cfg sz r.start 1).map fun s' => (some r.start, { r with start := s' })
+      if r.start < maxFrame sz then
+        (PhysFrame.add sz r.start 1).map fun s' => (some r.start, { r with start := s' })
+      else
+        (PhysFrame.sub sz r.stop 1).map fun e' => (some r.start, { r with stop := e' })
     else .ok (none, r)
 
 /-- Drive `next` until it returns `None` (at most `fuel` items). `none` = fuel exhausted. -/
-def collect (cfg : Cfg) (k : RangeKind) (sz : Nat) : Nat → Range → Option (R (List Nat))
+def collect (k : RangeKind) (sz : Nat) : Nat → Range → Option (R (List Nat))
   | 0, _ => none
   | fuel + 1, r =>
-    match next cfg k sz r with
+    match next k sz r with
     | .panic => some .panic
     | .ok (none, _) => some (.ok [])
     | .ok (some x, r') =>
-      match collect cfg k sz fuel r' with
+      match collect k sz fuel r' with
       | none => none
       | some .panic => some .panic
       | some (.ok xs) => some (.ok (x :: xs))
